@@ -105,12 +105,14 @@ Fixpoint find_blk (off : Z) (c : list blk) : option blk :=
   | b :: bs => if b_off b =? off then Some b else find_blk off bs
   end.
 
-Fixpoint prev_blk (off : Z) (c : list blk) : option blk :=
+Fixpoint prev_aux (off : Z) (p : option blk) (c : list blk) : option blk :=
   match c with
   | [] => None
-  | [_] => None
-  | p :: ((b :: _) as rest) => if b_off b =? off then Some p else prev_blk off rest
+  | b :: bs => if b_off b =? off then p else prev_aux off (Some b) bs
   end.
+
+(* physical predecessor of the block at offset off *)
+Definition prev_blk (off : Z) (c : list blk) : option blk := prev_aux off None c.
 
 Fixpoint next_blk (off : Z) (c : list blk) : option blk :=
   match c with
@@ -197,7 +199,8 @@ Definition insert_free_block (t : tlsf) (b : blk) : option tlsf :=
   if (idx <? 0) || (zlen (t_lists t) <=? idx) then None else
   let l := list_at t idx in
   let lists' := update_nth (Z.to_nat idx) (fun _ => b_off b :: l) (t_lists t) in
-  let freeb := set_blk b (b_off b) (b_size b) true (b_tag b) in
+  (* ghost fields are reset: a free block stands for no request *)
+  let freeb := mkBlk (b_off b) (b_size b) true (b_tag b) 0 0 1 in
   let chain' := replace_blk (b_off b) freeb (t_chain t) in
   let '(bm', inner') :=
     match l with
@@ -527,48 +530,53 @@ Inductive freeres := FOk (t' : tlsf) | FError | FPanic.
 Definition bind_f (o : option tlsf) (f : tlsf -> freeres) : freeres :=
   match o with None => FPanic | Some t => f t end.
 
+(* merge the block being freed with a free physical predecessor *)
+Definition free_merge_prev (t0 : tlsf) (b : blk) : option (tlsf * blk) :=
+  match prev_blk (b_off b) (t_chain t0) with
+  | Some p =>
+    if b_free p && negb (b_size p =? 0) then
+      match remove_free_block t0 p with
+      | None => None
+      | Some t1 =>
+        let merged := set_blk b (b_off p) (b_size b + b_size p) false (b_tag b) in
+        Some (with_chain t1 (replace_blk (b_off b) merged (remove_blk (b_off p) (t_chain t1))), merged)
+      end
+    else Some (t0, b)
+  | None => Some (t0, b)
+  end.
+
+(* then with the physical successor: taken -> insert; null block -> absorbed; free -> merged *)
+Definition free_merge_next (t1 : tlsf) (blk1 : blk) : freeres :=
+  match next_blk (b_off blk1) (t_chain t1) with
+  | None =>
+    let n := t_null t1 in
+    FOk (with_null (with_chain t1 (remove_blk (b_off blk1) (t_chain t1)))
+                   (set_blk n (b_off blk1) (b_size n + b_size blk1) true (b_tag n)))
+  | Some nx =>
+    if negb (b_free nx) then
+      bind_f (insert_free_block t1 blk1) FOk
+    else
+      bind_f (remove_free_block t1 nx) (fun t2 =>
+        let merged := set_blk nx (b_off blk1) (b_size nx + b_size blk1) false None in
+        let c := replace_blk (b_off nx) merged (remove_blk (b_off blk1) (t_chain t2)) in
+        bind_f (insert_free_block (with_chain t2 c) merged) FOk)
+  end.
+
 Definition tlsf_free (t : tlsf) (handle : Z) : freeres :=
   match find_blk handle (t_chain t) with
   | None => FError
-  | Some b =>
-    if b_free b then FError else
-    match free_regions (t_gran t) (b_off b) (b_size b) with
+  | Some b0 =>
+    if b_free b0 then FError else
+    match free_regions (t_gran t) (b_off b0) (b_size b0) with
     | None => FPanic
     | Some g' =>
-      let t0 := mkT (t_size t) g' (t_chain t) (t_null t) (t_lists t) (t_bitmap t) (t_inner t)
+      (* ghost: the allocation ends here, its request fields are reset *)
+      let b := mkBlk (b_off b0) (b_size b0) false (b_tag b0) 0 0 1 in
+      let t0 := mkT (t_size t) g' (replace_blk (b_off b0) b (t_chain t)) (t_null t) (t_lists t) (t_bitmap t) (t_inner t)
                     (t_alloc_count t - 1) (t_free_count t) (t_free_size t) in
-      (* merge with a free predecessor *)
-      let step1 : option (tlsf * blk) :=
-        match prev_blk (b_off b) (t_chain t0) with
-        | Some p =>
-          if b_free p && negb (b_size p =? 0) then
-            match remove_free_block t0 p with
-            | None => None
-            | Some t1 =>
-              let merged := set_blk b (b_off p) (b_size b + b_size p) false (b_tag b) in
-              Some (with_chain t1 (replace_blk (b_off b) merged (remove_blk (b_off p) (t_chain t1))), merged)
-            end
-          else Some (t0, b)
-        | None => Some (t0, b)
-        end in
-      match step1 with
+      match free_merge_prev t0 b with
       | None => FPanic
-      | Some (t1, blk1) =>
-        match next_blk (b_off blk1) (t_chain t1) with
-        | None =>
-          (* next is the null block: it absorbs the freed block *)
-          let n := t_null t1 in
-          FOk (with_null (with_chain t1 (remove_blk (b_off blk1) (t_chain t1)))
-                         (set_blk n (b_off blk1) (b_size n + b_size blk1) true (b_tag n)))
-        | Some nx =>
-          if negb (b_free nx) then
-            bind_f (insert_free_block t1 blk1) FOk
-          else
-            bind_f (remove_free_block t1 nx) (fun t2 =>
-              let merged := set_blk nx (b_off blk1) (b_size nx + b_size blk1) false None in
-              let c := replace_blk (b_off nx) merged (remove_blk (b_off blk1) (t_chain t2)) in
-              bind_f (insert_free_block (with_chain t2 c) merged) FOk)
-        end
+      | Some (t1, blk1) => free_merge_next t1 blk1
       end
     end
   end.
